@@ -15,6 +15,7 @@ type Op struct {
 	Cmd  []string `json:"cmd,omitempty"` // hex-encoded arguments
 	Adv  int64    `json:"adv,omitempty"` // advance the virtual clock by this many ms before the command
 	At   int64    `json:"at,omitempty"`  // or set the virtual clock to this absolute ms (if non-zero)
+	Tick int      `json:"tick,omitempty"` // evict suite: run one background TTL-sampler pass on database Tick-1 instead of a command
 }
 
 // Seq is a replayable sequence on a fresh instance.
